@@ -5,5 +5,5 @@ CONSTANTS
   Datasets <- DatasetsBucket4
   Spans <- SpansAll
   Origins <- OriginsAll
-INVARIANTS InvBuckets InvKeysOnce InvRowsPartition TypeOK
+INVARIANTS InvFloorDiv InvBuckets InvKeysOnce InvRowsPartition TypeOK
 CHECK_DEADLOCK FALSE
